@@ -54,7 +54,13 @@ struct Shim {
     active: Option<ActiveFn>,
     fs_names: Option<NamesFn>,
     fs_count: Option<FsCountFn>,
+    set_sched: Option<SetSchedFn>,
+    sched_points: Option<SchedPointsFn>,
 }
+
+type SchedCb = extern "C" fn(*mut std::ffi::c_void, std::ffi::c_int) -> std::ffi::c_int;
+type SetSchedFn = unsafe extern "C" fn(Option<SchedCb>, *mut std::ffi::c_void);
+type SchedPointsFn = unsafe extern "C" fn(std::ffi::c_int) -> u64;
 
 fn find_shim() -> Shim {
     unsafe fn sym(name: &[u8]) -> *mut std::ffi::c_void {
@@ -67,7 +73,11 @@ fn find_shim() -> Shim {
         let a = sym(b"sim_active\0");
         let fnames = sym(b"sim_fs_names\0");
         let fcount = sym(b"sim_fs_count\0");
+        let ss = sym(b"sim_set_sched_hook\0");
+        let sp = sym(b"sim_sched_points\0");
         Shim {
+            set_sched: if ss.is_null() { None } else { Some(std::mem::transmute::<*mut std::ffi::c_void, SetSchedFn>(ss)) },
+            sched_points: if sp.is_null() { None } else { Some(std::mem::transmute::<*mut std::ffi::c_void, SchedPointsFn>(sp)) },
             mark: if m.is_null() { None } else { Some(std::mem::transmute::<*mut std::ffi::c_void, MarkFn>(m)) },
             counters: if c.is_null() { None } else { Some(std::mem::transmute::<*mut std::ffi::c_void, CountersFn>(c)) },
             names: if n.is_null() { None } else { Some(std::mem::transmute::<*mut std::ffi::c_void, NamesFn>(n)) },
@@ -201,6 +211,21 @@ fn expand_once(src: &str, token_built: bool) -> Rendering {
     }
 }
 
+/// in-expansion counters of the shim: clock reads, getenv calls, getpid calls, disk writes, fs calls
+fn seam_counters(shim: Shim) -> [u64; 5] {
+    let mut c = [0u64; 10];
+    let mut fs = 0u64;
+    unsafe {
+        if let Some(f) = shim.counters {
+            f(c.as_mut_ptr(), 10);
+        }
+        if let Some(f) = shim.fs_count {
+            fs = f();
+        }
+    }
+    [c[4], c[6], c[8], c[9], fs]
+}
+
 fn guarded_expand(src: &str, shim: Shim, token_built: bool) -> Rendering {
     if let Some(m) = shim.mark {
         unsafe { m(1) }
@@ -232,6 +257,11 @@ enum Cmd {
     /// interleaving chosen by the seeded scheduler (hooked build: switch points are the seam's
     /// yield points; plain build: there are none, the two simply run one after the other)
     ExpandCo { seq: u64, tid: u32, id: u32, src: std::sync::Arc<String>, baton: std::sync::Arc<Baton>, me: usize },
+    /// one member of a group of expansions that start together and then run *freely*.  Only
+    /// planned under Miri, whose own seeded scheduler then decides -- at basic-block granularity,
+    /// repeatably per `-Zmiri-seed` -- how the threads interleave; never planned natively, where
+    /// nobody would decide it.
+    ExpandFree { seq: u64, tid: u32, id: u32, src: std::sync::Arc<String>, gate: std::sync::Arc<std::sync::Barrier>, stagger: u32 },
     Perturb { n: u32, seed: u64 },
     Order { policy: u8, seed: u64, site: Option<(String, u32)> },
     Quit,
@@ -240,6 +270,7 @@ enum Cmd {
 /// Who may run.  Exactly one of the two threads of a pair holds the baton at any time; at a
 /// yield point the holder asks the seeded stream whether to hand it over.
 pub struct Baton {
+    seed: u64,
     state: std::sync::Mutex<BatonState>,
     cv: std::sync::Condvar,
 }
@@ -253,7 +284,7 @@ struct BatonState {
 
 impl Baton {
     fn new(seed: u64, n: usize) -> Baton {
-        Baton { state: std::sync::Mutex::new(BatonState { turn: (seed % n as u64) as usize, done: vec![false; n], rng: seed | 1, switches: 0 }), cv: std::sync::Condvar::new() }
+        Baton { seed, state: std::sync::Mutex::new(BatonState { turn: (seed % n as u64) as usize, done: vec![false; n], rng: seed | 1, switches: 0 }), cv: std::sync::Condvar::new() }
     }
     fn wait_turn(&self, me: usize) {
         let mut st = self.state.lock().unwrap();
@@ -263,12 +294,13 @@ impl Baton {
     }
     /// some other member that has not finished yet, chosen by the seeded stream
     fn pick_other(st: &mut BatonState, me: usize) -> Option<usize> {
-        let others: Vec<usize> = (0..st.done.len()).filter(|i| *i != me && !st.done[*i]).collect();
-        if others.is_empty() {
+        // (no heap allocation in here: allocations are scheduling points themselves)
+        let n = (0..st.done.len()).filter(|i| *i != me && !st.done[*i]).count();
+        if n == 0 {
             None
         } else {
             let r = xorshift(&mut st.rng);
-            Some(others[(r % others.len() as u64) as usize])
+            (0..st.done.len()).filter(|i| *i != me && !st.done[*i]).nth((r % n as u64) as usize)
         }
     }
     #[allow(dead_code)]
@@ -287,6 +319,41 @@ impl Baton {
             }
         }
     }
+    /// a scheduling point the shim reports (a heap allocation): hand over with probability 1/den
+    fn maybe_switch_den(&self, me: usize, den: u64) {
+        if den == 0 {
+            return;
+        }
+        let mut st = self.state.lock().unwrap();
+        let r = xorshift(&mut st.rng);
+        if r % den != 0 {
+            return;
+        }
+        if let Some(next) = Baton::pick_other(&mut st, me) {
+            st.turn = next;
+            st.switches += 1;
+            self.cv.notify_all();
+            while st.turn != me {
+                st = self.cv.wait(st).unwrap();
+            }
+        }
+    }
+    /// `me` is about to block on something another member holds: that member must run
+    fn blocked_switch(&self, me: usize) -> bool {
+        let mut st = self.state.lock().unwrap();
+        match Baton::pick_other(&mut st, me) {
+            Some(next) => {
+                st.turn = next;
+                st.switches += 1;
+                self.cv.notify_all();
+                while st.turn != me {
+                    st = self.cv.wait(st).unwrap();
+                }
+                true
+            },
+            None => false,
+        }
+    }
     fn finish(&self, me: usize) {
         let mut st = self.state.lock().unwrap();
         st.done[me] = true;
@@ -294,6 +361,32 @@ impl Baton {
             st.turn = next;
         }
         self.cv.notify_all();
+    }
+}
+
+struct SchedCtx {
+    baton: *const Baton,
+    me: usize,
+    den: u64,
+}
+
+thread_local! {
+    /// set while this thread runs the baton's own code (entered from a seam's yield point or
+    /// from the shim): a scheduling point met in there is not one
+    static IN_BATON: std::cell::Cell<bool> = const { std::cell::Cell::new(false) };
+}
+
+extern "C" fn sched_cb(arg: *mut std::ffi::c_void, why: std::ffi::c_int) -> std::ffi::c_int {
+    if IN_BATON.with(|b| b.get()) {
+        return 0;
+    }
+    let ctx = unsafe { &*(arg as *const SchedCtx) };
+    let baton = unsafe { &*ctx.baton };
+    if why == 1 {
+        baton.blocked_switch(ctx.me) as std::ffi::c_int
+    } else {
+        baton.maybe_switch_den(ctx.me, ctx.den);
+        0
     }
 }
 
@@ -327,9 +420,26 @@ fn run_cmd(st: &mut ThreadState, cmd: Cmd) -> Option<String> {
                     o2o_impl::verif_seam::set_site_filter(&f, l);
                 }
             }
+            let before = seam_counters(st.shim);
             let r = guarded_expand(&src, st.shim, token_built);
+            let after = seam_counters(st.shim);
             #[allow(unused_mut)]
             let mut line = format!("R {} {} {} {} {} {}\n", seq, tid, id, r.verdict, esc(&r.text), esc(&r.spans));
+            // which seams did *this* expansion touch?  (bit 0 clock, 1 environment, 2 pid, 3 disk write,
+            // 4 file system).  Feedback for the planner: such inputs are kept and expanded again under
+            // those faults.  (a panic makes std look up RUST_BACKTRACE: not the expander's doing)
+            let mut mask = 0u32;
+            for (bit, (a, b)) in after.iter().zip(before.iter()).enumerate() {
+                if a > b {
+                    mask |= 1 << bit;
+                }
+            }
+            if r.verdict == "PANIC" {
+                mask &= !2;
+            }
+            if mask != 0 {
+                line.push_str(&format!("C {} {}\n", seq, mask));
+            }
             #[cfg(o2o_verif)]
             {
                 let (probes, containers) = o2o_impl::verif_seam::take_probes();
@@ -352,10 +462,30 @@ fn run_cmd(st: &mut ThreadState, cmd: Cmd) -> Option<String> {
                     o2o_impl::verif_seam::set_site_filter(&f, l);
                 }
                 let b = baton.clone();
-                o2o_impl::verif_seam::set_yield_hook(Some(Box::new(move |_label| b.maybe_switch(me))));
+                o2o_impl::verif_seam::set_yield_hook(Some(Box::new(move |_label| {
+                    IN_BATON.with(|f| f.set(true));
+                    b.maybe_switch(me);
+                    IN_BATON.with(|f| f.set(false));
+                })));
             }
             baton.wait_turn(me);
+            // every heap allocation is a scheduling point too (plain and hooked builds alike),
+            // taken with a probability that is part of the group's seeded schedule
+            let den = match (baton.seed >> 8) % 5 {
+                0 => 0,
+                1 => 64,
+                2 => 512,
+                3 => 4096,
+                _ => 32768,
+            };
+            let ctx = SchedCtx { baton: &*baton as *const Baton, me, den };
+            if let Some(f) = st.shim.set_sched {
+                unsafe { f(Some(sched_cb), &ctx as *const SchedCtx as *mut std::ffi::c_void) }
+            }
             let r = guarded_expand(&src, st.shim, false);
+            if let Some(f) = st.shim.set_sched {
+                unsafe { f(None, std::ptr::null_mut()) }
+            }
             #[cfg(o2o_verif)]
             o2o_impl::verif_seam::set_yield_hook(None);
             baton.finish(me);
@@ -367,6 +497,18 @@ fn run_cmd(st: &mut ThreadState, cmd: Cmd) -> Option<String> {
                 line.push_str(&format!("B {} {}\n", seq, containers));
             }
             Some(line)
+        },
+        Cmd::ExpandFree { seq, tid, id, src, gate, stagger } => {
+            gate.wait();
+            // a planned head start for the other members (the barrier releases its waiters at
+            // slightly different times, always the same way; this moves the offset around)
+            let mut x = 0u64;
+            for i in 0..stagger {
+                x = std::hint::black_box(x.wrapping_add(i as u64));
+            }
+            std::hint::black_box(x);
+            let r = guarded_expand(&src, st.shim, false);
+            Some(format!("R {} {} {} {} {} {}\n", seq, tid, id, r.verdict, esc(&r.text), esc(&r.spans)))
         },
         Cmd::Perturb { n, seed } => {
             // seeded allocate / free pattern: leaves holes of assorted sizes in the allocator's
@@ -536,7 +678,34 @@ fn main() {
                     out.write_all(r.as_bytes()).unwrap();
                 }
                 let sw = baton.state.lock().unwrap().switches;
-                writeln!(out, "K {} {}", members[0].0, sw).unwrap();
+                let points = match shim.sched_points {
+                    Some(f) => unsafe { f(0) + f(1) },
+                    None => 0,
+                };
+                writeln!(out, "K {} {} {}", members[0].0, sw, points).unwrap();
+            },
+            Some("Y") => {
+                // Y <n> then n times: <seq> <tid> <id> <stagger>: free-running group (Miri only)
+                let v: Vec<u64> = f.map(|x| x.parse().unwrap()).collect();
+                let n = if !v.is_empty() { v[0] as usize } else { 0 };
+                if n < 2 || v.len() != 1 + 4 * n {
+                    eprintln!("host: bad Y record");
+                    std::process::exit(2);
+                }
+                let members: Vec<(u64, u32, u32, u32)> = (0..n).map(|k| (v[1 + 4 * k], v[2 + 4 * k] as u32, v[3 + 4 * k] as u32, v[4 + 4 * k] as u32)).collect();
+                let gate = std::sync::Arc::new(std::sync::Barrier::new(n));
+                for m in &members {
+                    let (Some(t), Some(x)) = (threads.iter().find(|t| t.0 == m.1), inputs.iter().find(|x| x.0 == m.2)) else {
+                        eprintln!("host: bad Y record (unknown thread or input)");
+                        std::process::exit(2);
+                    };
+                    t.1.send(Cmd::ExpandFree { seq: m.0, tid: m.1, id: m.2, src: x.1.clone(), gate: gate.clone(), stagger: m.3 }).expect("worker gone");
+                }
+                for m in &members {
+                    let t = threads.iter().find(|t| t.0 == m.1).unwrap();
+                    let r = t.2.recv().expect("worker died");
+                    out.write_all(r.as_bytes()).unwrap();
+                }
             },
             Some("P") => {
                 let tid: u32 = f.next().unwrap().parse().unwrap();
